@@ -172,4 +172,172 @@ theorem delta_formatArrs (l : List (Ptr × Nat)) (p : Pool) (v : Int) (hp : Pool
     refine ⟨?_, h2⟩
     intro j; have := h1 j; rw [count_writeArr] at this; exact this
 
+/-! ### base addresses: every pointer that was successfully shared or freshly allocated is null or the start of a chunk -/
+
+/-- a list of owner pointers: each is null (zero-sized array) or the base address of a chunk -/
+def AlignedL (l : List Ptr) : Prop := ∀ q ∈ l, q = .null ∨ ∃ id, q = .at id 0
+
+/-- freshly allocated w.r.t. a pool of length `n`: null or the base address of a chunk id that did not exist -/
+def FreshL (n : Nat) (l : List Ptr) : Prop := ∀ q ∈ l, q = .null ∨ ∃ id, q = .at id 0 ∧ n ≤ id
+
+theorem AlignedL.nil : AlignedL [] := by intro q h; cases h
+
+theorem AlignedL.append {a b : List Ptr} (ha : AlignedL a) (hb : AlignedL b) : AlignedL (a ++ b) := by
+  intro q h
+  cases List.mem_append.mp h with
+  | inl h => exact ha q h
+  | inr h => exact hb q h
+
+theorem AlignedL.left {a b : List Ptr} (h : AlignedL (a ++ b)) : AlignedL a :=
+  fun q hq => h q (List.mem_append.mpr (Or.inl hq))
+
+theorem AlignedL.right {a b : List Ptr} (h : AlignedL (a ++ b)) : AlignedL b :=
+  fun q hq => h q (List.mem_append.mpr (Or.inr hq))
+
+theorem FreshL.aligned {n : Nat} {l : List Ptr} (h : FreshL n l) : AlignedL l := by
+  intro q hq
+  rcases h q hq with h | ⟨id, h, _⟩
+  · exact Or.inl h
+  · exact Or.inr ⟨id, h⟩
+
+theorem FreshL.mono {n m : Nat} {l : List Ptr} (h : FreshL m l) (hnm : n ≤ m) : FreshL n l := by
+  intro q hq
+  rcases h q hq with h | ⟨id, h, hh⟩
+  · exact Or.inl h
+  · exact Or.inr ⟨id, h, by omega⟩
+
+theorem incr_aligned {p p' : Pool} {q : Ptr} (h : incr p q = .ok p') : q = .null ∨ ∃ id, q = .at id 0 := by
+  rcases count_incr h 0 with ⟨hq, _⟩ | ⟨id, hq, _⟩
+  · exact Or.inl hq
+  · exact Or.inr ⟨id, hq⟩
+
+theorem incrAll_aligned {l : List Ptr} {p p' : Pool} (h : incrAll p l = .ok p') : AlignedL l := by
+  induction l generalizing p with
+  | nil => exact AlignedL.nil
+  | cons q qs ih =>
+    unfold incrAll at h
+    cases hr : incr p q with
+    | error e => rw [hr] at h; cases h
+    | ok p1 =>
+      rw [hr] at h
+      intro x hx
+      cases List.mem_cons.mp hx with
+      | inl e => subst e; exact incr_aligned hr
+      | inr hx => exact ih h x hx
+
+theorem incr_length {p p' : Pool} {q : Ptr} (h : incr p q = .ok p') : p'.length = p.length := by
+  unfold incr at h
+  cases q with
+  | null => injection h with h; subst h; rfl
+  | «at» id off =>
+    simp only at h
+    split at h
+    · cases h
+    · split at h
+      · cases h
+      · injection h with h; subst h; simp
+
+theorem release_length {p p' : Pool} {q : Ptr} (h : release p q = .ok p') : p'.length = p.length := by
+  unfold release at h
+  cases q with
+  | null => injection h with h; subst h; rfl
+  | «at» id off =>
+    simp only at h
+    split at h
+    · cases h
+    · split at h
+      · cases h
+      · split at h <;> (injection h with h; subst h; simp)
+
+theorem incrAll_length {l : List Ptr} {p p' : Pool} (h : incrAll p l = .ok p') : p'.length = p.length := by
+  induction l generalizing p with
+  | nil => unfold incrAll at h; injection h with h; subst h; rfl
+  | cons q qs ih =>
+    unfold incrAll at h
+    cases hr : incr p q with
+    | error e => rw [hr] at h; cases h
+    | ok p1 => rw [hr] at h; rw [ih h, incr_length hr]
+
+theorem releaseAll_length {l : List Ptr} {p p' : Pool} (h : releaseAll p l = .ok p') : p'.length = p.length := by
+  induction l generalizing p with
+  | nil => unfold releaseAll at h; injection h with h; subst h; rfl
+  | cons q qs ih =>
+    unfold releaseAll at h
+    cases hr : release p q with
+    | error e => rw [hr] at h; cases h
+    | ok p1 => rw [hr] at h; rw [ih h, release_length hr]
+
+theorem alloc_length (p : Pool) (n esz : Nat) (vals : List Int) : p.length ≤ (alloc p n esz vals).1.length := by
+  unfold alloc; split <;> simp
+
+theorem alloc_fresh (p : Pool) (n esz : Nat) (vals : List Int) :
+    (alloc p n esz vals).2 = .null ∨ ∃ id, (alloc p n esz vals).2 = .at id 0 ∧ p.length ≤ id := by
+  unfold alloc; split
+  · exact Or.inl rfl
+  · exact Or.inr ⟨p.length, rfl, Nat.le_refl _⟩
+
+theorem allocAll_length (l : List (Ptr × Nat)) (p : Pool) (esz : Nat) (copy : Bool) :
+    p.length ≤ (allocAll p esz copy l).1.length := by
+  induction l generalizing p with
+  | nil => exact Nat.le_refl _
+  | cons x rest ih =>
+    obtain ⟨q, n⟩ := x
+    simp only [allocAll]
+    exact Nat.le_trans (alloc_length p n esz _) (ih _)
+
+theorem allocAll_fresh (l : List (Ptr × Nat)) (p : Pool) (esz : Nat) (copy : Bool) :
+    FreshL p.length (allocAll p esz copy l).2 := by
+  induction l generalizing p with
+  | nil => intro q h; cases h
+  | cons x rest ih =>
+    obtain ⟨q, n⟩ := x
+    simp only [allocAll]
+    intro y hy
+    cases List.mem_cons.mp hy with
+    | inl e => subst e; exact alloc_fresh p n esz _
+    | inr hy => exact (ih _).mono (alloc_length p n esz _) y hy
+
+theorem writeArr_length (p : Pool) (q : Ptr) (vs : List Int) : (writeArr p q vs).length = p.length := by
+  unfold writeArr
+  cases q with
+  | null => rfl
+  | «at» id off => simp only; split <;> simp
+
+/-- releasing a list of base addresses never aborts when every counter covers the multiplicity in the list -/
+theorem releaseAll_ok {l : List Ptr} {p : Pool} (hp : PoolPos p) (ha : AlignedL l)
+    (hc : ∀ j, (idsOf l).count j ≤ count p j) : ∃ p', releaseAll p l = .ok p' := by
+  induction l generalizing p with
+  | nil => exact ⟨p, rfl⟩
+  | cons q qs ih =>
+    have hqs : AlignedL qs := fun x hx => ha x (List.mem_cons_of_mem _ hx)
+    rcases ha q (List.mem_cons_self) with hq | ⟨id, hq⟩
+    · subst hq
+      unfold releaseAll
+      simp only [release]
+      exact ih hp hqs (fun j => by simpa [idsOf] using hc j)
+    · subst hq
+      have h1 : 1 ≤ count p id := by
+        have := hc id; simp only [idsOf, List.count_cons_self] at this; omega
+      cases hr : release p (.at id 0) with
+      | error e =>
+        exfalso
+        unfold release at hr
+        simp only [ne_eq, not_true_eq_false, if_false] at hr
+        cases hg : get p id with
+        | none => unfold count at h1; rw [hg] at h1; simp at h1
+        | some c => rw [hg] at hr; simp only at hr; split at hr <;> cases hr
+      | ok p1 =>
+        unfold releaseAll
+        rw [hr]
+        simp only
+        apply ih (posRelease hr hp) hqs
+        intro j
+        have h2 := (count_release hr hp j).2.2
+        have h3 := hc j
+        simp only [idsOf, List.count_cons] at h3
+        by_cases hij : id = j
+        · simp [hij] at h2 h3; omega
+        · have : (id == j) = false := by simp [hij]
+          simp [hij, this] at h2 h3; omega
+
 end FeatModel.Pool
